@@ -409,7 +409,7 @@ theorem inputEnv_of_module (c : Ctx) (op : Nat) (items : List Item)
       refine ⟨hn ▸ hprim _ (hpre_sub _ hit), .inl ⟨hn ▸ hfind _ hit, ?_⟩⟩
       have := hmem _ (hpre_sub _ hit)
       rw [enumItem_eq] at this
-      exact this
+      exact (List.nodup_append.mp this).1
   · intro k i hk hi
     have hit := (hinput k i hk hi).1
     exact ⟨hname i ▸ hprim _ (hpre_sub _ hit), hname i ▸ hfind _ hit⟩
